@@ -783,8 +783,11 @@ func main() {
 	run = vx.Begin("C09", "exploration",
 		"PRNG event histories (1-6 peers, 1-40 pieces over 1-4 files, 0-3 web seeds, rarest/sequential, end-game limit {1,2,3,20}) issued through a mirror of the torrent's handlers to the real PiecePicker; shadow model compared after every operation. distinct = distinct operation logs with at least one pick")
 	logger.Disable()
-	n := run.N(4000, 400000)
+	n := run.N(30000, 600000)
 	vx.Parallel(n, runtime.NumCPU(), func(k int) {
+		if run.Enough() {
+			return
+		}
 		fp, viol, lg, desc := runHistory(k)
 		run.Eval(1)
 		for _, v := range viol {
